@@ -284,6 +284,8 @@ def rule_value_flow(ck: Check, repo: Repo) -> None:
         "value.strip().strip()": "strip",
         "value.strip()": "strip",
         "value.strip()[:-len(prefix.strip()[::-1])].strip()": "frame",
+        # str.removesuffix carries its own guard (a no-op for an empty suffix and for a value that does not end in it)
+        "value.strip().removesuffix(prefix.strip()[::-1]).strip()": "frame-self-guarded",
     }
     for d, leaf, _ in leaves:
         ys = [e for e in leaf.events if e[0] == "each" and e[2][0] == "yield"]
@@ -303,7 +305,9 @@ def rule_value_flow(ck: Check, repo: Repo) -> None:
             elif kind == "frame" and not (short.get("has_prefix") and short.get("mirrored")):
                 r.violation(q, "frame slice without its guard",
                             "the mirrored-suffix slice must be guarded by `suffix and value.endswith(suffix)`", repo.loc(fn))
-    r.floor(2, "paths of find_spdx_tag", got=len(leaves))
+    self_guarded = any(allowed.get(e[2][1]) == "frame-self-guarded" for _, leaf, _ in leaves for e in leaf.events
+                       if e[0] == "each" and e[2][0] == "yield")
+    r.floor(1 if self_guarded else 2, "paths of find_spdx_tag", got=len(leaves))
 
 
 # ------------------------------------------------------------------ R5/R6/R7
